@@ -76,14 +76,41 @@ def spans(model, info, art):
 
         def failing():
             yield Msg("open_run")
+            yield Msg("open_run", run="K")
             raise RuntimeError("boom")
         try:
             RE(failing())
         except RuntimeError:
             pass
         run_spans = [s for s in fake.spans if s.name.endswith(" run")]
-        if [s.ended for s in run_spans] != [1] or run_spans[0].attrs.get("exit_status") != "fail":
+        if [s.ended for s in run_spans] != [1, 1] or [s.attrs.get("exit_status") for s in run_spans] != ["fail", "fail"]:
             problems.append(f"engine-closed run: end counts {[s.ended for s in run_spans]}, status {[s.attrs.get('exit_status') for s in run_spans]}")
+        # 4. a close_run the bundler rejects must not end the span early: the run is still open and is closed (as failed)
+        #    by the engine afterwards
+        fake.spans.clear()
+        import bluesky.bundlers as bb
+        orig_close = bb.RunBundler.close_run
+        state = {"first": True}
+
+        async def flaky_close(self, msg):
+            if state["first"]:
+                state["first"] = False
+                raise RuntimeError("bundler refused to close")
+            return await orig_close(self, msg)
+        bb.RunBundler.close_run = flaky_close
+        try:
+            def rejected_close():
+                yield Msg("open_run")
+                yield Msg("close_run", exit_status="success")
+            try:
+                RE(rejected_close())
+            except RuntimeError:
+                pass
+        finally:
+            bb.RunBundler.close_run = orig_close
+        run_spans = [s for s in fake.spans if s.name.endswith(" run")]
+        if [s.ended for s in run_spans] != [1] or run_spans[0].attrs.get("exit_status") != "fail":
+            problems.append(f"rejected close_run: span ended {[s.ended for s in run_spans]} times with status {[s.attrs.get('exit_status') for s in run_spans]} (the run ended as 'fail')")
         left = getattr(RE, "_run_tracing_spans")
         if len(left):
             problems.append(f"{len(left)} span(s) left registered after the call")
